@@ -2240,10 +2240,20 @@ impl<'store> FindTextSelectionsIter<'store> {
     /// If this function returns None, the caller function will loop/recurse
     /// Internally this may iterate backwards over a double ended iterator (but results will be reversed and ordered again)
     fn next_textselection(&mut self) -> Option<TextSelectionHandle> {
-        if let TextSelectionOperator::Equals {
-            negate: false,
-            all: false,
-        } = self.operator
+        //(with a single reference the `all` modifier changes nothing: equality also finds the reference itself then)
+        if matches!(
+            self.operator,
+            TextSelectionOperator::Equals {
+                negate: false,
+                all: false
+            }
+        ) || (matches!(
+            self.operator,
+            TextSelectionOperator::Equals {
+                negate: false,
+                all: true
+            }
+        ) && self.refset.len() == 1)
         {
             // this operator is handled separately, we don't need a secondary iterator (textseliter) for it at all
             // we just find the exact selections by offset
